@@ -499,6 +499,7 @@ func runC01(c *fw.Ctx) {
 	defer func() {
 		if vsched.DefaultPolicy == 0 {
 			runC01Table(c)
+			runC01Head(c)
 		}
 		runC01Upload(c)
 	}()
@@ -800,6 +801,9 @@ func replayC01(raw json.RawMessage) (string, bool) {
 	json.Unmarshal(raw, &fam)
 	if fam.Family == "c01table" {
 		return replayC01Table(raw)
+	}
+	if fam.Family == "c01head" {
+		return replayC01Head(raw)
 	}
 	if fam.Family == "c01upload" {
 		return replayC01Upload(raw)
